@@ -458,7 +458,7 @@ def run(ctx):
             "print('RESULT' + json.dumps(out))\n"
         )
         try:
-            pr = _sp.run([_sys.executable, "-c", code], input=_json.dumps(todo), capture_output=True, text=True, timeout=ctx.pick(300, 900))
+            pr = _sp.run([_sys.executable, "-c", code], input=_json.dumps(todo), capture_output=True, text=True, timeout=ctx.pick(600, 1200))
             line = [l for l in pr.stdout.splitlines() if l.startswith("RESULT")]
             fresh = _json.loads(line[-1][6:]) if line else None
         except _sp.TimeoutExpired:
